@@ -105,7 +105,7 @@ func plainLenForCompressed(pool []byte, target int) (int, bool) {
 }
 
 func runC09(r *ev.Run) {
-	r.SetRule("(a) Set/Get/Delete/List on the on-disk store against a map model for sizes at and around the cipher block edges (computed with the same LZ4 options) and four compressibility classes; (b) truncation / bit-flip / block drop-swap-duplicate / wrong-passphrase sweep over stored files: Get must return an error or exactly the stored bytes; (c) concurrent Get/Set/Delete histories on the WriteControlledStore with unique self-describing values, checked per ID with porcupine against a register-with-delete model, and the same workload under the race detector. distinct = distinct (part, size class, content kind | corruption kind, position class | history) cases")
+	r.SetRule("(a) Set/Get/Delete/List on the on-disk store against a map model for sizes at and around the cipher block edges (computed with the same LZ4 options) and four compressibility classes; (b) truncation / bit-flip / block drop-swap-duplicate / wrong-passphrase (an unrelated one, and for a 69-byte passphrase its prefixes, extensions and one-byte changes before and beyond the 32nd byte) sweep over stored files: Get must return an error or exactly the stored bytes; (c) concurrent Get/Set/Delete histories on the WriteControlledStore with unique self-describing values, checked per ID with porcupine against a register-with-delete model, and the same workload under the race detector. distinct = distinct (part, size class, content kind | corruption kind, position class | history) cases")
 	r.Assume("corruption sweep positions: every offset for small files; header+nonce region, +-32 bytes around every block boundary and a PRNG sample elsewhere for large files",
 		"a porcupine timeout is inconclusive, never a violation")
 
@@ -549,6 +549,46 @@ func c09Corruption(r *ev.Run) {
 			} else if err == nil && len(sub.data) > 0 {
 				r.Violate("C09 wrong-passphrase returns-the-bytes", "Get with another passphrase returned the stored bytes", "corruption", nil)
 			}
+		}
+
+		// Passphrases related to the right one (a long one: prefixes, extensions, one byte changed at either end
+		// or beyond the 32nd byte) are different passphrases too.
+		longPass := []byte("verif-long-passphrase/0123456789abcdefghijklmnopqrstuvwxyz/ABCDEFGHIJ")
+		longDir := filepath.Join(s.dir, "..", "c09-long-passphrase")
+
+		if ls, err := store.NewOnDiskStore(longDir, longPass); err == nil && ls.Set(id, bytes.NewReader(sub.data)) == nil {
+			flip := func(i int) []byte {
+				p := append([]byte{}, longPass...)
+				p[i] ^= 1
+
+				return p
+			}
+
+			related := map[string][]byte{
+				"one-byte-shorter": longPass[:len(longPass)-1], "one-byte-longer": append(append([]byte{}, longPass...), 'x'), "first-32-bytes": longPass[:32], "first-33-bytes": longPass[:33],
+				"same-first-32-bytes-other-tail": append(append([]byte{}, longPass[:32]...), []byte("something else entirely")...), "last-byte-changed": flip(len(longPass) - 1), "first-byte-changed": flip(0),
+				"byte-33-changed": flip(32), "byte-32-changed": flip(31), "doubled": append(append([]byte{}, longPass...), longPass...), "empty": {},
+			}
+
+			for name, pass := range related {
+				other, err := store.NewOnDiskStore(longDir, pass)
+				if err != nil {
+					continue
+				}
+
+				r.Eval(1)
+				r.Distinct("corrupt related-passphrase " + name + " " + sub.name)
+
+				if got, err := other.Get(id); err == nil && (len(sub.data) > 0 || len(got) > 0) {
+					r.Violate("C09 wrong-passphrase related "+name, fmt.Sprintf("a file written with a %d-byte passphrase was read without error (%d bytes, equal to the stored ones: %v) by a store opened with a different passphrase (%s)", len(longPass), len(got), bytes.Equal(got, sub.data), name), "corruption", nil)
+				}
+			}
+
+			if got, err := ls.Get(id); err != nil || !bytes.Equal(got, sub.data) {
+				r.Violate("C09 corrupt restore-failed", fmt.Sprintf("Get with the right long passphrase fails: %v", err), "corruption", nil)
+			}
+
+			_ = ls.Delete(id)
 		}
 
 		if got, err := s.st.Get(id); err != nil || !bytes.Equal(got, sub.data) {
